@@ -292,15 +292,15 @@ def rkmap(rng):
     return sorted((k, rng.choice(NAMES + ['z', 'y'])) for k in ks)
 
 
-def rcond(rng, keyf):
+def rcond(rng, keyf, maxkeys=2):
     r = rng.random()
     if r < 0.3:
         return ('key', keyf(), rng.choice([-1, -1, 0, 1]))
     if r < 0.65:
         bm = rng.choice([None, 1, 2, 3, 5])
         return ('mask', keyf(), rng.choice([-1, -1, 0]), rng.choice([0, 1, 2, 3]), rng.random() < 0.5, bm)
-    eid = rng.choice([0, 1, 2, 3, 4])
-    n = _templates()[eid][0]
+    eid = rng.choice([0, 1, 2, 3, 4] if maxkeys >= 2 else [0, 1, 3])
+    n = {0: 1, 1: 1, 2: 2, 3: 1, 4: 2}[eid]
     ks = [keyf()]
     while len(ks) < n:
         k = keyf()
@@ -513,9 +513,7 @@ class Gen:
                 pool = list(outer_names)
             if pool:
                 for _ in range(rng.choice([1, 1, 2])):
-                    c = rcond(rng, lambda: ((), rng.choice(pool)))
-                    if c[0] == 'sym' and len(set(pool)) < len(c[2]):
-                        c = ('key', ((), rng.choice(pool)), -1)
+                    c = rcond(rng, lambda: ((), rng.choice(pool)), len(set(pool)))
                     cs.append(c)
         return dict(t='leaf', uid=uid, sgn=rng.random() < 0.3, qs=qs, mk=[], cs=cs, ps=ps)
 
